@@ -5,7 +5,7 @@
 From Coq Require Import ZArith List Bool QArith Permutation.
 From MV Require Import Tri.PartitionDefs Tri.PartitionCheck Tri.PartitionModel Tri.PartitionBounded.
 From MV Require Base.Chain Tri.QuadChain Tri.QuadModel Tri.TriModel Tri.SubdivideDefs Tri.SubdivideModel
-  Tri.SimplifyDefs Tri.SimplifyModel Tri.PartitionSweepMisc Tri.ReindexModel.
+  Tri.SimplifyDefs Tri.SimplifyModel Tri.PartitionSweepMisc Tri.ReindexModel Tri.SubdivideQuadDefs Tri.SubdivideQuadModel Tri.ReindexQuadModel Tri.SimplifyInvDefs Tri.SimplifyInv.
 Import ListNotations.
 Local Open Scope Z_scope.
 
@@ -317,6 +317,116 @@ Print Assumptions subdivide_balances.
 Example subdivide_tetra_balances : Chain.ceq (Chain.boundaries SubdivideModel.tetra_out) [].
 Proof. exact SubdivideModel.tetra_balances. Qed.
 
+(* ---------------------------------------------------------------------- *)
+(* The general Subdivide model (SubdivideQuadDefs.v): marked quads
+   (GetNeighbor / GetHalfedges / GetIndices) and keepInterior = true (the
+   `Added` adjustment, its 0.2 factor in binary64).                          *)
+Module SQ := SubdivideQuadDefs.
+
+(* keepInterior never produces a negative edgeAdded ... *)
+Theorem keep_interior_nonneg :
+  forall (numVert : Z) (tris : list tri) (added : Z -> Z -> Z) (marked : Z -> Z -> bool) (keepInterior : bool) (u v : Z),
+    (forall u v, 0 <= added u v) -> u < v ->
+    0 <= SQ.eadd numVert tris added marked keepInterior u v.
+Proof. exact SubdivideQuadModel.eadd_nonneg_q. Qed.
+Print Assumptions keep_interior_nonneg.
+
+(* ... so also with quads and keepInterior every new edge-vertex index is written exactly once *)
+Theorem new_indices_once_edges_q :
+  forall (numVert : Z) (tris : list tri) (added : Z -> Z -> Z) (marked : Z -> Z -> bool) (keepInterior : bool),
+    (forall u v, 0 <= added u v) ->
+    let offs := SQ.edge_offset_list_q numVert tris added marked keepInterior in
+    let ns := SQ.edge_added_list_q numVert tris added marked keepInterior in
+    let total := SQ.total_edge_added_q numVert tris added marked keepInterior in
+    (forall i k x, SubdivideModel.in_run offs ns i k x -> numVert <= x < numVert + total) /\
+    (forall x, numVert <= x < numVert + total ->
+       (exists i k, SubdivideModel.in_run offs ns i k x) /\
+       (forall i k i' k', SubdivideModel.in_run offs ns i k x -> SubdivideModel.in_run offs ns i' k' x -> i = i' /\ k = k')).
+Proof. exact SubdivideQuadModel.new_indices_once_edges_q. Qed.
+Print Assumptions new_indices_once_edges_q.
+
+Theorem new_indices_once_interior_q :
+  forall (T : Type) (numVert : Z) (tris : list tri) (added : Z -> Z -> Z) (marked : Z -> Z -> bool)
+         (keepInterior : bool) (ps : list (partition T)),
+    SubdivideModel.nonneg (SubdivideDefs.num_interior_list T ps) ->
+    let lo := numVert + SQ.total_edge_added_q numVert tris added marked keepInterior in
+    let hi := lo + SubdivideDefs.zsum (SubdivideDefs.num_interior_list T ps) in
+    let offs := SQ.interior_offset_list_q T numVert tris added marked keepInterior ps in
+    (forall t k x, SubdivideModel.in_run offs (SubdivideDefs.num_interior_list T ps) t k x -> lo <= x < hi) /\
+    (forall x, lo <= x < hi ->
+       (exists t k, SubdivideModel.in_run offs (SubdivideDefs.num_interior_list T ps) t k x) /\
+       (forall t k t' k', SubdivideModel.in_run offs (SubdivideDefs.num_interior_list T ps) t k x ->
+                          SubdivideModel.in_run offs (SubdivideDefs.num_interior_list T ps) t' k' x -> t = t' /\ k = k')).
+Proof. exact SubdivideQuadModel.new_indices_once_interior_q. Qed.
+Print Assumptions new_indices_once_interior_q.
+
+(* faces = triangles and quads (two triangles joined along a marked edge): for
+   every closed oriented soup, every symmetric marking accepted by quads_valid
+   (implied by the port of ValidTangents, next theorem), every edge divisions,
+   the subdivided outlines of all faces cancel. *)
+Theorem face_outlines_balance :
+  forall (tris : list tri) (marked : Z -> Z -> bool) (off n : Z -> Z -> Z),
+    (forall p q r, In (p, q, r) tris -> p <> q /\ q <> r /\ r <> p) ->
+    (forall x y, marked x y = marked y x) ->
+    SQ.quads_valid tris marked = true ->
+    Chain.ceq (Chain.boundaries tris) [] ->
+    Chain.ceq (flat_map (SubdivideQuadModel.face_outline tris marked off n) (SQ.tri_ids tris)) [].
+Proof. exact SubdivideQuadModel.gout_q_balances. Qed.
+Print Assumptions face_outlines_balance.
+
+Theorem valid_tangents_implies_quads_valid :
+  forall (tris : list tri) (marked : Z -> Z -> bool),
+    (forall p q r, In (p, q, r) tris -> p <> q /\ q <> r /\ r <> p) ->
+    SQ.halfedges_unique tris = true ->
+    SQ.valid_tangents tris marked = true ->
+    SQ.quads_valid tris marked = true.
+Proof. exact SubdivideQuadModel.valid_tangents_implies_quads_valid. Qed.
+Print Assumptions valid_tangents_implies_quads_valid.
+
+(* Reindex on quad patterns (four corners, rotations only), all sizes *)
+Theorem reindex_outline_quad :
+  forall (T : Type) (tzero tone : T) (tlerp : T -> T -> Z -> Z -> T)
+         (d0 d1 d2 d3 : Z) (p : partition T) (v0 v1 v2 v3 o0 o1 o2 o3 : Z) (f0 f1 f2 f3 : bool) (io : Z) (rt : list tri),
+    1 <= d0 -> 1 <= d1 -> 1 <= d2 -> 1 <= d3 -> 0 <= v0 -> 0 <= v1 -> 0 <= v2 -> 0 <= v3 ->
+    get_partition T tzero tone tlerp (V4 d0 d1 d2 d3) = Some p ->
+    reindex T p (V4 v0 v1 v2 v3) (V4 o0 o1 o2 o3) (V4 f0 f1 f2 f3) io = Some rt ->
+    forall a b, Chain.coef (Chain.boundaries rt) a b =
+                ReindexModel.rsides4 a b v0 v1 v2 v3 o0 o1 o2 o3 f0 f1 f2 f3 (d0 - 1) (d1 - 1) (d2 - 1) (d3 - 1).
+Proof. exact ReindexModel.reindex_outline_quad. Qed.
+Print Assumptions reindex_outline_quad.
+
+(* the general model (marked quads, both values of keepInterior) returns a
+   closed oriented soup for every closed oriented input of non-degenerate
+   triangles with non-negative vertex ids, every non-negative edgeDivisions
+   oracle and every symmetric marking accepted by quads_valid.  Remaining
+   hypothesis: split_ok for the triangle patterns used. *)
+Theorem subdivide_q_balances :
+  forall (T : Type) (tzero tone : T) (tlerp : T -> T -> Z -> Z -> T)
+         (numVert : Z) (tris : list tri) (added : Z -> Z -> Z) (marked : Z -> Z -> bool)
+         (keepInterior : bool) (out : list tri),
+    Chain.ceq (Chain.boundaries tris) [] ->
+    (forall p q r, In (p, q, r) tris -> p <> q /\ q <> r /\ r <> p) ->
+    (forall p q r, In (p, q, r) tris -> 0 <= p /\ 0 <= q /\ 0 <= r) ->
+    (forall u v, 0 <= added u v) ->
+    (forall x y, marked x y = marked y x) ->
+    SQ.quads_valid tris marked = true ->
+    (forall t p, SQ.face_part T tzero tone tlerp numVert tris added marked keepInterior t = Some p ->
+                 c3 (p_sorted p) = 0 -> TriModel.split_ok (c0 (p_sorted p)) (c1 (p_sorted p)) (c2 (p_sorted p))) ->
+    SQ.subdivide_tris_q T tzero tone tlerp numVert tris added marked keepInterior = Some out ->
+    Chain.ceq (Chain.boundaries out) [].
+Proof. exact ReindexQuadModel.subdivide_q_balances_all. Qed.
+Print Assumptions subdivide_q_balances.
+
+(* without quads and keepInterior the general model is the restricted one *)
+Theorem subdivide_q_restricts :
+  forall (T : Type) (tzero tone : T) (tlerp : T -> T -> Z -> Z -> T) (numVert : Z) (tris : list tri) (added : Z -> Z -> Z),
+    SQ.halfedges_unique tris = true ->
+    SQ.too_large numVert tris added (fun _ _ => false) = Some false ->
+    SQ.subdivide_tris_q T tzero tone tlerp numVert tris added (fun _ _ => false) false =
+    SubdivideDefs.subdivide_tris T tzero tone tlerp numVert tris added.
+Proof. exact SubdivideQuadModel.subdivide_q_restricts. Qed.
+Print Assumptions subdivide_q_restricts.
+
 (* property vertices: forward copies and backward duplicates never collide *)
 Theorem prop_slots_disjoint :
   forall (numVert numPropVert newNumVert : Z) (tris : list tri) (added : Z -> Z -> Z),
@@ -366,6 +476,62 @@ Theorem collapse_tri_kills_tri :
     SimplifyDefs.live_tri s' (edge / 3) = false.
 Proof. exact SimplifyModel.collapse_tri_kills_tri. Qed.
 Print Assumptions collapse_tri_kills_tri.
+
+(* "dead triangles stay dead".  SI.pair_inv is an executable pairing invariant
+   (slots a multiple of 3; every pair is -1 or the index of a halfedge whose
+   pair points back and is different; liveness is uniform over each face).
+   CollapseTri never revives a removed face, for any state with the invariant. *)
+Module SD := SimplifyDefs.
+Module SI := SimplifyInvDefs.
+
+Theorem collapse_tri_dead_stay_dead :
+  forall (s : SD.state) (e : Z) (s' : SD.state),
+    SI.pair_inv s = true -> 0 <= e ->
+    SD.collapse_tri s (SD.tri_of e) = Some s' ->
+    forall t, SD.live_tri s t = false -> SD.live_tri s' t = false.
+Proof. exact SimplifyInv.collapse_tri_dead_stay_dead. Qed.
+Print Assumptions collapse_tri_dead_stay_dead.
+
+(* SwapEdge / CollapseEdge2 (with their FormLoop, RemoveIfFolded, UpdateVert,
+   CollapseTri calls and fuel loops) preserve the invariant and never revive a
+   removed face.  PARTIAL: under the executable guards swap_edge_guard /
+   collapse_edge2_guard (the edge and its pair lie in different faces; every
+   FormLoop / RemoveIfFolded reached is applied to live halfedges of two
+   different faces, none of them the half-removed tri0edge[0]); the pairing
+   invariant alone does not imply them (vertex consistency would be needed).
+   The guards are evaluated on every operation of the implementation's traces
+   (evidence: edge_ops.invariant). *)
+Theorem swap_edge_inv_partial :
+  forall (fuel : nat) (s : SD.state) (edge : Z) (s' : SD.state),
+    SI.pair_inv s = true ->
+    SI.swap_edge_guard fuel s edge = Some true ->
+    SD.swap_edge fuel s edge = Some s' ->
+    SI.pair_inv s' = true /\ forall t, SD.live_tri s t = false -> SD.live_tri s' t = false.
+Proof. exact SimplifyInv.swap_edge_inv. Qed.
+Print Assumptions swap_edge_inv_partial.
+
+Theorem collapse_edge2_inv_partial :
+  forall (fuel : nat) (s : SD.state) (edge : Z) (reject : bool) (s' : SD.state) (did : bool),
+    SI.pair_inv s = true ->
+    SI.collapse_edge2_guard fuel s edge reject = Some true ->
+    SD.collapse_edge2 fuel s edge reject = Some (s', did) ->
+    SI.pair_inv s' = true /\ forall t, SD.live_tri s t = false -> SD.live_tri s' t = false.
+Proof. exact SimplifyInv.collapse_edge2_inv. Qed.
+Print Assumptions collapse_edge2_inv_partial.
+
+(* whole runs: from ANY state with the invariant (not only all-live ones) the
+   number of live triangles is non-increasing along every guarded sequence of
+   CollapseEdge2 / SwapEdge requests.  (From an all-live state - what an
+   Is2Manifold input is - simplify_counts above needs no guard at all.) *)
+Theorem simplify_counts_monotone_partial :
+  forall (fuel : nat) (ops : list SD.op) (s s' : SD.state),
+    SI.pair_inv s = true -> SI.run_ops_guard fuel ops s = Some true -> SD.run_ops fuel ops s = Some s' ->
+    SD.num_live s' <= SD.num_live s.
+Proof. exact SimplifyInv.run_ops_num_live_monotone_partial. Qed.
+Print Assumptions simplify_counts_monotone_partial.
+
+Example pair_inv_satisfiable : SI.pair_inv SD.octa = true.
+Proof. exact SimplifyInv.pair_inv_octa. Qed.
 
 (* the only operation that grows halfedge_ is DedupeEdge (CleanupTopology), by 6 slots = 2 triangles *)
 Theorem dedupe_adds_two :
